@@ -459,7 +459,11 @@ impl C11 {
     fn gen_case(&self, seed: u64, tier: Tier) -> Case {
         let mut rng = Rng::new(seed);
         let classes = ["small", "big", "early-exit", "cmdsubst", "shared-read", "forever", "builtin-big", "external-big"];
-        let class = classes[rng.below(classes.len() as u64) as usize].to_string();
+        let mut class = classes[rng.below(classes.len() as u64) as usize].to_string();
+        // real sizes: the 64 KiB pipe with payloads beyond it (no byte-wise `read` loops)
+        if rng.below(if tier == Tier::Thorough { 8 } else { 25 }) == 0 {
+            class = "real-size".to_string();
+        }
         let nstages = rng.range(2, if tier == Tier::Thorough { 4 } else { 4 }) as usize;
         // capacity: log-uniform 1 .. 64 KiB
         let cap_exp = rng.below(17);
@@ -484,6 +488,13 @@ impl C11 {
             (((want / line) as u32).min(999), pad)
         };
         let tag = ["A", "B", "L"][rng.below(3) as usize].to_string();
+        let (n, pad, capacity) = if class == "real-size" {
+            let pad = 60u32;
+            let bytes = rng.range(66_000, if tier == Tier::Thorough { 300_000 } else { 140_000 });
+            ((bytes / 64) as u32, pad, 65536usize)
+        } else {
+            (n, pad, capacity)
+        };
         let mut stages = vec![];
         // source
         let forever = class == "forever";
@@ -494,6 +505,8 @@ impl C11 {
                 (Body::Builtin, Wrapper::None)
             } else if class == "external-big" {
                 (Body::External, Wrapper::None)
+            } else if class == "real-size" {
+                (if rng.below(2) == 0 { Body::Builtin } else { Body::External }, gen_wrapper(&mut rng))
             } else {
                 (gen_body(&mut rng), gen_wrapper(&mut rng))
             };
@@ -505,10 +518,17 @@ impl C11 {
                 (Body::Builtin, Wrapper::None)
             } else if class == "external-big" && !last {
                 (Body::External, Wrapper::None)
+            } else if class == "real-size" {
+                (if rng.below(2) == 0 { Body::Builtin } else { Body::External }, gen_wrapper(&mut rng))
             } else {
                 (gen_body(&mut rng), gen_wrapper(&mut rng))
             };
             let role = match class.as_str() {
+                "real-size" => match rng.below(6) {
+                    0 => Role::Head { k: rng.range(1, (n as u64 / 2).max(1)) as u32, buf: *rng.pick(&[512u32, 4096, 8192, 65536]) },
+                    1 if last => Role::Exit { status: *rng.pick(&[0u8, 3]), drain: true },
+                    _ => Role::Copy { buf: *rng.pick(&[512u32, 4096, 8192, 65536, 100_000]) },
+                },
                 "early-exit" | "forever" if i == 1 || rng.below(3) == 0 => {
                     if rng.below(4) == 0 {
                         Role::Exit { status: *rng.pick(&[0u8, 1, 3, 7]), drain: false }
@@ -549,6 +569,11 @@ impl C11 {
             }
         }
         let wrap = match class.as_str() {
+            "real-size" => match rng.below(4) {
+                0 => Wrap::CmdSubst { trailing_newlines: rng.below(3) as u32 },
+                1 => Wrap::NestedCmdSubst,
+                _ => Wrap::None,
+            },
             "cmdsubst" => {
                 if rng.below(5) == 0 {
                     Wrap::Backquote
@@ -577,7 +602,17 @@ impl C11 {
         cfg.short_read_pm = if rng.below(4) == 0 { *rng.pick(&[50u16, 300]) } else { 0 };
         cfg.workers = *rng.pick(&[None, None, None, Some(1usize), Some(2)]);
         let bytes = model_payload(&stages).max(64);
-        cfg.budget = if forever { 30_000 } else { 2_000 + bytes * (nstages as u64) * 8 };
+        cfg.budget = if forever {
+            30_000
+        } else if class == "real-size" {
+            // per-line writes of the source plus block copies of the other stages
+            20_000 + (n as u64) * 6 + (bytes / 256) * (nstages as u64) * 4
+        } else {
+            2_000 + bytes * (nstages as u64) * 8
+        };
+        if class == "real-size" {
+            cfg.short_read_pm = 0;
+        }
         let lastpipe = rng.below(5) == 0;
         let via_entry = rng.below(5) == 0;
         Case { class, stages, wrap, pipefail: rng.below(3) == 0, lastpipe, via_entry, front_end, cfg }
